@@ -1,6 +1,7 @@
 package main
 
 import (
+	"go/constant"
 	"go/token"
 	"go/types"
 	"sort"
@@ -883,6 +884,65 @@ func ruleCtxArmReturnsErr(c *Ctx, r *R, rels ...string) {
 			}
 			name := c.nameOf(fn)
 			n := 0
+			// the select lives in a boolean helper that is handed ctx.Done() (readyBeforeDone(ctx.Done(), ch) → false when the
+			// context ended first): on the branch that corresponds to the helper's Done arm the function returns ctx.Err()
+			if cp := ctxParam(fn); cp != nil && fn.Parent() == nil && token.IsExported(fn.Name()) {
+				instrs(fn, func(b *ssa.BasicBlock, i int, in ssa.Instruction) {
+					hc, ok := in.(*ssa.Call)
+					if !ok {
+						return
+					}
+					cal := staticCallee(&hc.Call)
+					if cal == nil || cal.Blocks == nil || ctxParam(origin(cal)) != nil || doneParamIndex(origin(cal)) < 0 {
+						return
+					}
+					doneVal, known := doneArmResult(origin(cal))
+					if !known {
+						return
+					}
+					for _, ref := range refsOf(hc) {
+						var iff *ssa.If
+						pol := true
+						switch x := ref.(type) {
+						case *ssa.If:
+							iff = x
+						case *ssa.UnOp:
+							if x.Op == token.NOT {
+								for _, r2 := range refsOf(x) {
+									if i2, ok := r2.(*ssa.If); ok {
+										iff, pol = i2, false
+									}
+								}
+							}
+						}
+						if iff == nil {
+							continue
+						}
+						// successor taken when the helper's result equals doneVal
+						idx := 1
+						if doneVal == pol {
+							idx = 0
+						}
+						arm := iff.Block().Succs[idx]
+						for _, rb := range fn.Blocks {
+							if rb != arm && !arm.Dominates(rb) {
+								continue
+							}
+							ret, ok := rb.Instrs[len(rb.Instrs)-1].(*ssa.Return)
+							if !ok || len(ret.Results) == 0 {
+								continue
+							}
+							n++
+							ev := returnedValue(ret, len(ret.Results)-1)
+							good := false
+							if ec, ok := ev.(*ssa.Call); ok && ec.Call.IsInvoke() && ec.Call.Method.Name() == "Err" && ec.Call.Value == ssa.Value(cp) && (ec.Block() == arm || arm.Dominates(ec.Block())) {
+								good = true
+							}
+							r.ok(good, name+"|ctx-arm-return#"+itoa(n), retPos(ret), "on the branch taken when the context ended first the function must return ctx.Err() (read there): any other value tells the caller the wait succeeded or hides why it ended")
+						}
+					}
+				})
+			}
 			for _, op := range chanOpsOf(fn) {
 				if op.kind != "select" {
 					continue
@@ -1028,4 +1088,61 @@ func rawParamDefaultedFirst(fn *ssa.Function, par *ssa.Parameter, depth int) (go
 		}
 	}
 	return good, defaulted, why
+}
+
+// doneArmResult: the boolean constant a select helper returns from its Done arm (and the opposite from every other arm).
+func doneArmResult(h *ssa.Function) (bool, bool) {
+	for _, op := range chanOpsOf(h) {
+		if op.kind != "select" || !op.blocking {
+			continue
+		}
+		var doneBody *ssa.BasicBlock
+		for _, a := range op.arms {
+			if !a.send && a.kind == "ctx-done" {
+				doneBody = a.body
+			}
+		}
+		if doneBody == nil {
+			continue
+		}
+		var doneVal *bool
+		ok := true
+		for _, b := range h.Blocks {
+			ret, isRet := b.Instrs[len(b.Instrs)-1].(*ssa.Return)
+			if !isRet || len(ret.Results) != 1 {
+				continue
+			}
+			k, isK := ret.Results[0].(*ssa.Const)
+			if !isK || k.Value == nil || k.Value.Kind() != constant.Bool {
+				ok = false
+				continue
+			}
+			v := constant.BoolVal(k.Value)
+			inDone := b == doneBody || doneBody.Dominates(b)
+			if inDone {
+				if doneVal != nil && *doneVal != v {
+					ok = false
+				}
+				doneVal = &v
+			}
+		}
+		if doneVal == nil || !ok {
+			return false, false
+		}
+		// every return outside the Done arm yields the opposite
+		for _, b := range h.Blocks {
+			ret, isRet := b.Instrs[len(b.Instrs)-1].(*ssa.Return)
+			if !isRet || len(ret.Results) != 1 {
+				continue
+			}
+			if b == doneBody || doneBody.Dominates(b) {
+				continue
+			}
+			if k, isK := ret.Results[0].(*ssa.Const); !isK || k.Value == nil || constant.BoolVal(k.Value) == *doneVal {
+				return false, false
+			}
+		}
+		return *doneVal, true
+	}
+	return false, false
 }
